@@ -109,12 +109,13 @@ class ParseTimeout(argparse.Action):
 
     @staticmethod
     def unparse(value: float) -> str:
-        # less than 1s, render as ms
-        if value < 1:
-            return f"{int(value * 1000)}ms"
+        # whole seconds (>= 1s), render as s
+        if value >= 1 and value == int(value):
+            return f"{int(value)}s"
 
-        # otherwise, render as s
-        return f"{int(value)}s"
+        # otherwise, render as ms without losing precision (e.g. 1.5s -> 1500ms, 0.0005s -> 0.5ms)
+        ms = value * 1000
+        return f"{int(ms)}ms" if ms == int(ms) else f"{ms!r}ms"
 
 
 class ParseCSVTraceEvent(argparse.Action):
